@@ -16,7 +16,9 @@ RULE = ('Histories of <=25 operations on a real AppCfgMgr over a temporary '
         'manager restarts and node reboots; the salt varies container names '
         'and with them the iteration order inside _synchronize. Link structure '
         'is checked after every step, the cache/running correspondence after '
-        'every synchronisation. Non-trivial = two generations of one instance '
+        'every synchronisation, and at event quiescence (queue empty, manager '
+        'active) every running link must match the current cache generation. '
+        'Non-trivial = two generations of one instance '
         'coexisted under apps/, or a synchronisation ran while a cleanup link '
         'was outstanding. distinct = canonical JSON of the case.')
 ASSUMPTIONS = [
@@ -38,7 +40,7 @@ ASSUMPTIONS = [
     'another container is not generated',
 ]
 TRUSTED = ['pbt/c13sim.py']
-BUDGET = {'quick': 2400, 'thorough': 64000}
+BUDGET = {'quick': 9600, 'thorough': 192000}
 
 KINDS = ['exitinfo', 'aborted', 'oom', 'pid1']
 
